@@ -825,6 +825,9 @@ func (u *Unit) specCall(env *specEnv, x *ast.CallExpr) Val {
 		fn := smtName("implements$iface{" + strings.Join(ms, ",") + "}")
 		u.decls.declFun(fn, []string{SInt}, SBool)
 		return boolVal(tAnd(tNot(tEq(v.S, "0")), tApp(fn, tApp("dyntype", v.S))))
+	case "lastfv":
+		// lastfv(): the function value most recently called through a variable (calls the engine cannot resolve)
+		return scalar(tSel(u.heapTerm(env.st, "G$lastfv", sArr(SInt, SInt)), "0"), SInt, nil)
 	case "aval":
 		// aval(x.f): the current value of the sync/atomic field x.f
 		v := u.specEval(env, x.Args[0])
